@@ -218,13 +218,21 @@ void h_api(void)
  * signal at the current time, while the wake-ups themselves may make the queue grow (move) */
 void h_waiters(void)
 {
+#ifdef CMV_WLEAVE
+    setup(1);                               /* the leave case: one pending event, one waiter (the pattern cancel is the cost) */
+#else
     setup(2);
+#endif
     ASSUME(cmv_n0 >= 1);
     struct cmb_process *w1 = malloc(sizeof *w1), *w2 = malloc(sizeof *w2);
     w1->priority = nondet_i64(); w2->priority = nondet_i64(); w1->awaits.next = NULL; w2->awaits.next = NULL;
     w1->core.status = CMI_COROUTINE_RUNNING; w2->core.status = CMI_COROUTINE_RUNNING; w1->name[0] = 0; w2->name[0] = 0;
     const int tgt = spec_min();
+#ifdef CMV_WLEAVE
+    const unsigned nw = 1;
+#else
     const unsigned nw = nondet_u8(); ASSUME(nw <= 2);
+#endif
     if (nw >= 1) cmi_event_add_waiter(GH[tgt].h, w1);
     if (nw >= 2) cmi_event_add_waiter(GH[tgt].h, w2);
     const uint64_t cnt0 = cmb_event_queue_count();
